@@ -69,17 +69,35 @@ func (w *c15World) factsFor(env *c15Env, pos token.Pos) []c15Fact {
 
 // inRangeFact finds a fact that establishes ip < len(cp): `(I < len(C))` true or `(len(C) <= I)` false in any spelling.
 func (w *c15World) inRangeFact(facts []c15Fact, ip, cp *c15Path) *c15Fact {
+	up, _ := w.rangeFacts(facts, ip, cp)
+	return up
+}
+
+// rangeFacts finds the controlling facts that establish the two sides of "ip is in range of cp":
+// upper: ip < len(cp)   — `(I < len(C))` true or `(len(C) <= I)` false, in any spelling;
+// lower: 0 <= ip        — `(0 <= I)` true or `(I < 0)` false; an unsigned upper test establishes it as well.
+func (w *c15World) rangeFacts(facts []c15Fact, ip, cp *c15Path) (upper, lower *c15Fact) {
 	for i := range facts {
 		f := &facts[i]
 		t := w.rangeTest(f.env, f.expr)
 		if t == nil || !w.rangeTestAbout(t, ip, cp) {
 			continue
 		}
-		if (t.rel == c15RelBelow && f.val) || (t.rel == c15RelNotBelow && !f.val) {
-			return f
+		switch {
+		case (t.rel == c15RelBelow && f.val) || (t.rel == c15RelNotBelow && !f.val):
+			if upper == nil {
+				upper = f
+			}
+			if t.twoSided() && lower == nil {
+				lower = f
+			}
+		case (t.rel == c15RelNonNeg && f.val) || (t.rel == c15RelNeg && !f.val):
+			if lower == nil {
+				lower = f
+			}
 		}
 	}
-	return nil
+	return upper, lower
 }
 
 // wrappingFact finds a controlling comparison about ip / cp that is spelled `unsigned(I) <= unsigned(len(C)-1)`.
